@@ -1119,6 +1119,20 @@ func operatorMapDescentRule(c *Ctx, r *Report, rule string) {
 				if !ok {
 					continue
 				}
+				// the index form: `at := slices.Index(path, marker); at+1 < len(path)` - an element
+				// (the client-chosen name) follows the marker
+				if fc.Pol && bo.Op == token.LSS {
+					if add, isAdd := peel(bo.X).(*ssa.BinOp); isAdd && add.Op == token.ADD {
+						if one, isC := constInt(add.Y); isC && one == 1 {
+							if ic, isCall := peel(add.X).(*ssa.Call); isCall && strings.HasPrefix(calleeKey(&ic.Call), "slices.Index") && len(ic.Call.Args) == 2 && peel(ic.Call.Args[0]) == ssa.Value(pathPrm) {
+								if lc, isLen := peel(bo.Y).(*ssa.Call); isLen && calleeKey(&lc.Call) == "builtin len" && peel(lc.Call.Args[0]) == ssa.Value(pathPrm) {
+									okGuard = true
+									continue
+								}
+							}
+						}
+					}
+				}
 				lenOf := func(v ssa.Value) ssa.Value {
 					if lc, ok := v.(*ssa.Call); ok && calleeKey(&lc.Call) == "builtin len" {
 						return lc.Call.Args[0]
